@@ -66,7 +66,20 @@ fn build_local_into_box(
     let fp_val = cell_ref!([ap - 2]);
     let offset = match operand.cells.as_slice() {
         [] => 0,
-        [CellExpression::Deref(CellRef { register: Register::FP, offset }), ..] => *offset,
+        [CellExpression::Deref(CellRef { register: Register::FP, offset }), rest @ ..] => {
+            // The box points at the first cell - the other cells must follow it in memory.
+            for (cell, expected_offset) in rest.iter().zip(offset + 1..) {
+                if *cell
+                    != CellExpression::Deref(CellRef {
+                        register: Register::FP,
+                        offset: expected_offset,
+                    })
+                {
+                    return Err(InvocationError::InvalidReferenceExpressionForArgument);
+                }
+            }
+            *offset
+        }
         _ => return Err(InvocationError::InvalidReferenceExpressionForArgument),
     };
     let ptr = CellExpression::add_with_const(fp_val, offset);
